@@ -218,6 +218,9 @@ def run_case(case, acc: Acc | None = None):
         task_box.extend(tasks)
         if tasks:
             await asyncio.wait(tasks)
+        if case.get("cancel"):
+            # the cancelled caller is gone but its frame may still be going through its budget
+            await asyncio.sleep(float(ash.ACK_TIMEOUTS) * T_MAX + 1.0)
         for i in range(first, n):
             await do_send(i)
         await vloop.settle(loop, 4)
